@@ -30,13 +30,13 @@ fn last_kind(t: &dyn Table, ops: &[Op]) -> &'static str {
 }
 
 fn size_of(v: &Visit) -> u64 {
-    v.ops.len() as u64
+    v.all_ops.len() as u64
 }
 
 fn replay(v: &Visit) -> serde_json::Value {
     match v.lane {
-        Some(l) => seq::lane_replay(v.table, v.ctor, l, v.ops),
-        None => seq::replay_json(v.table, v.ctor, v.ops),
+        Some(l) => seq::lane_replay(v.table, v.ctor, l, v.all_ops),
+        None => seq::replay_json(v.table, v.ctor, v.all_ops),
     }
 }
 
@@ -98,7 +98,12 @@ pub fn judge(ctx: &Ctx, p: P, v: &Visit) {
             ctx.distinct(fnv(&s.head) ^ ((s.len as u64) << 20));
             let la = t.length_at();
             let declared = if s.len >= la + 4 { rd32(&s.head, la) as usize } else { usize::MAX };
-            if declared != s.len {
+            // generic table: after the caller overwrote the Length field it holds the caller's bytes until the next append
+            let user_len = t.name() == "sdt" && {
+                let last_app = v.ops.iter().rposition(|o| matches!(o.k, 0..=4 | 7));
+                v.ops.iter().enumerate().any(|(i, o)| matches!(o.k, 5 | 6) && (o.shape as usize) < 8 && (o.shape as usize) + (if o.k == 5 { 1 } else { 4 }) > 4 && last_app.map(|a| i > a).unwrap_or(true))
+            };
+            if declared != s.len && !user_len {
                 let key = {
                     let img = ser(v.live);
                     quirk_of(t, v.ctor, v.ops, &img).map(|q| format!("{}:{}", t.name(), q))
@@ -232,7 +237,7 @@ pub fn judge(ctx: &Ctx, p: P, v: &Visit) {
 pub fn run(ctx: &'static Ctx, p: P) {
     let quick = ctx.quick();
     let level = if quick { 1 } else { 2 };
-    let budget: u64 = if quick { 60_000 } else { 2_000_000 };
+    let budget: u64 = if quick { 400_000 } else { 10_000_000 };
     let mut per_table = vec![];
     for t in tables::all() {
         let t: &dyn Table = t.as_ref();
@@ -278,15 +283,61 @@ pub fn run(ctx: &'static Ctx, p: P) {
         };
         lane_prefixes += judged.iter().sum::<u64>();
         let mut long_info = json!(null);
+        if quick && t.variable_body() && t.name() != "slit" {
+            // quick: per kind, one single-kind lane just long enough for the image to cross 65536 bytes
+            use rayon::prelude::*;
+            let probe = seq::lane_set(t, &c0, 2, false);
+            let j: Vec<u64> = probe
+                .par_iter()
+                .map(|pl| {
+                    let r2 = t.reference(&c0, &pl.ops);
+                    let per = r2.ents.last().map(|e| e.len).unwrap_or(16).max(1);
+                    let need = 66_200 / per + 4;
+                    let name = pl.name.clone();
+                    let lanes = seq::lane_set(t, &c0, need, false);
+                    let mut l = match lanes.into_iter().find(|l| l.name.split('^').next() == name.split('^').next()) {
+                        Some(l) => l,
+                        None => return 0,
+                    };
+                    let r = t.reference(&c0, &l.ops);
+                    let lens: Vec<usize> = (0..=l.ops.len()).map(|k| if k < r.ents.len() { r.ents[k].off } else { r.image.len() }).collect();
+                    if let Some(m) = t.max_image() {
+                        // the table documents a size limit: stay inside it (going past it is C18's business)
+                        let keep = lens.iter().rposition(|x| *x <= m).unwrap_or(0);
+                        l.ops.truncate(keep);
+                    }
+                    seq::run_lane(
+                        ctx,
+                        t,
+                        &c0,
+                        &l,
+                        &|k| {
+                            let crossing = (k.saturating_sub(2)..=(k + 2).min(l.ops.len())).any(|j| j > 0 && (lens[j] >> 16) != (lens[j - 1] >> 16));
+                            let go = crossing || k == l.ops.len() || k % 509 == 0;
+                            (go, !(crossing && k > 0 && (lens[k] >> 16) != (lens[k - 1] >> 16)))
+                        },
+                        &|v| judge(ctx, p, v),
+                    )
+                })
+                .collect();
+            lane_prefixes += j.iter().sum::<u64>();
+            long_info = json!({"lanes": probe.len(), "purpose": "image length crosses 65536 bytes", "prefixes_judged": j.iter().sum::<u64>(), "selection": "within 2 of the crossing (the crossing prefix with all oracles), every 509th, the last"});
+        }
         if !quick && t.variable_body() {
             // long horizon: single-kind lanes far enough for counts and byte lengths to cross 65536
             let long = seq::lane_set(t, &c0, 66_000, false);
             use rayon::prelude::*;
             let j: Vec<u64> = long
                 .par_iter()
-                .map(|l| {
-                    let r = t.reference(&c0, &l.ops);
-                    let lens: Vec<usize> = (0..=l.ops.len()).map(|k| if k < r.ents.len() { r.ents[k].off } else { r.image.len() }).collect();
+                .map(|l0| {
+                    let r = t.reference(&c0, &l0.ops);
+                    let lens: Vec<usize> = (0..=l0.ops.len()).map(|k| if k < r.ents.len() { r.ents[k].off } else { r.image.len() }).collect();
+                    let mut lt = seq::Lane { name: l0.name.clone(), ops: l0.ops.clone() };
+                    if let Some(m) = t.max_image() {
+                        let keep = lens.iter().rposition(|x| *x <= m).unwrap_or(0);
+                        lt.ops.truncate(keep);
+                    }
+                    let l = &lt;
                     let crossing: Vec<bool> = (0..=l.ops.len())
                         .map(|k| (k.saturating_sub(3)..=(k + 3).min(l.ops.len())).any(|j| j > 0 && (lens[j] >> 16) != (lens[j - 1] >> 16)))
                         .collect();
